@@ -119,7 +119,7 @@ def _grammar_oracle(name, doc, out, exc, kw):
     from picosvg.svg import SVG
 
     probs = []
-    for nd in ((0, 2, 3, 6) if name.startswith(("pinned:", "corpus:")) or not name.startswith("cascade") else (2, 3, 6)):  # opacities need 2 digits (recorded finding)
+    for nd in ((0, 2, 3, 5, 6) if name.startswith(("pinned:", "corpus:")) or not name.startswith("cascade") else (2, 3, 6)):  # opacities need 2 digits (recorded finding)
         for flags in ({}, {"drop_unsupported": True}, {"allow_text": True}):
             opts = dict(kw, ndigits=nd, **flags)
             try:
@@ -136,7 +136,7 @@ def _grammar_oracle(name, doc, out, exc, kw):
 
 
 _mk("C01", "grammar", ("structural", "clipped", "cascade", "gradients", "stroked"), _grammar_oracle, "every normal return of topicosvg x ndigits {0,2,3,6} x {default, drop_unsupported, allow_text} checked by an independent grammar oracle",
-    pinned=("opacity_group_loses_sibling", "zero_opacity_outer_group", "drop_unsupported_leaves_single_child_group", "foreign_attribute_declared_on_a_stop", "zero_width_gradient_stroke_on_a_filled_shape"))
+    pinned=("opacity_group_loses_sibling", "zero_opacity_outer_group", "drop_unsupported_leaves_single_child_group", "foreign_attribute_declared_on_a_stop", "zero_width_gradient_stroke_on_a_filled_shape", "tiny_coordinates"))
 
 
 def _idempotence_oracle(name, doc, out, exc, kw):
@@ -202,6 +202,10 @@ def _sharing_docs():
         "drop_unsupported_drops_the_last_user": (f'<svg {NS} viewBox="0 0 100 100"><defs>{g("sky")}</defs><switch><rect width="20" height="20" fill="url(#sky)"/></switch><rect x="30" width="5" height="5"/></svg>', dict(drop_unsupported=True)),
         "allow_text_gradient_painted_text": (f'<svg {NS} viewBox="0 0 100 100"><defs>{g("sky")}</defs><text x="5" y="20" fill="url(#sky)">a</text><rect x="30" width="5" height="5"/></svg>', dict(allow_text=True)),
         "zero_width_gradient_stroke_on_a_filled_shape": corpus_pinned("zero_width_gradient_stroke_on_a_filled_shape"),
+        # the command line's --clip_to_viewbox: conversion, then clip_to_viewbox in place on the result (picosvg._run)
+        "gradient_user_outside_the_viewbox_then_clipped": (f'<svg {NS} viewBox="0 0 10 10"><defs>{g("far")}</defs><rect x="20" y="20" width="5" height="5" fill="url(#far)"/><rect x="1" y="1" width="5" height="5"/></svg>', dict(then_clip_to_viewbox=True)),
+        "gradient_inside_an_uninstantiated_symbol": f'<svg {NS} viewBox="0 0 100 100"><defs><symbol id="swatches"><g>{g("sunset")}</g><rect width="5" height="5"/></symbol></defs><rect width="20" height="20" fill="url(#sunset)"/></svg>',
+        "gradient_inside_a_zero_size_nested_svg": f'<svg {NS} viewBox="0 0 100 100"><svg width="0" height="0"><defs>{g("brand")}</defs><rect width="5" height="5"/></svg><svg width="50" height="50"><rect width="20" height="20" fill="url(#brand)"/></svg><rect x="70" width="20" height="20" fill="url(#brand)"/></svg>',
         "gradient_only_in_defs_shape_used_transformed": f'<svg {NS} viewBox="0 0 100 100"><defs>{g("a")}<rect id="r" width="10" height="10" fill="url(#a)"/></defs><use xlink:href="#r" transform="translate(20 20) rotate(15)"/></svg>',
     }
 
@@ -219,8 +223,17 @@ def _refs_run(shard):
             doc, opts = doc if isinstance(doc, tuple) else (doc, {})
             res.evaluations += 1
             res.distinct_nontrivial += 1
+            opts = dict(opts)
+            then_clip = opts.pop("then_clip_to_viewbox", False)
             try:
-                out = _convert(doc, **opts)
+                if then_clip:
+                    from picosvg.svg import SVG
+
+                    pico = SVG.fromstring(doc).topicosvg(**opts)
+                    pico.clip_to_viewbox(inplace=True)
+                    out = pico.tostring()
+                else:
+                    out = _convert(doc, **opts)
             except Exception as e:  # noqa
                 res.samples.append(dict(doc=name, outcome=f"raises {type(e).__name__}"))
                 continue
